@@ -450,34 +450,24 @@ pub fn render_float(
 	let whole = (numerator / denominator).floor();
 	let frac = numerator.floor() % denominator;
 
-	#[allow(clippy::bool_to_int_with_if)]
-	let dot_size = if precision == 0 && !ensure_pt { 0 } else { 1 };
-	padding = padding.saturating_sub(dot_size + precision);
-	render_decimal(out, n < 0.0, whole, padding, 0, blank, sign);
-	if precision == 0 {
-		if ensure_pt {
-			out.push('.');
-		}
-		return;
-	}
-	if trailing || frac > 0.0 {
-		out.push('.');
-		let mut frac_str = String::new();
+	// The fractional text is built first: without `trailing` (%g) zeros are trimmed from it,
+	// and the zero padding of the whole part has to be computed from what is really printed.
+	let mut frac_str = String::new();
+	let mut show_pt = ensure_pt;
+	if precision != 0 && (trailing || frac > 0.0) {
+		show_pt = true;
 		render_decimal(&mut frac_str, false, frac, precision, 0, false, false);
-		let mut trim = frac_str.len();
 		if !trailing {
-			for b in frac_str.as_bytes().iter().rev() {
-				if *b == b'0' {
-					trim -= 1;
-				} else {
-					break;
-				}
-			}
+			let trimmed = frac_str.trim_end_matches('0').len();
+			frac_str.truncate(trimmed);
 		}
-		out.push_str(&frac_str[..trim]);
-	} else if ensure_pt {
+	}
+	padding = padding.saturating_sub(u16::from(show_pt) + frac_str.len() as u16);
+	render_decimal(out, n < 0.0, whole, padding, 0, blank, sign);
+	if show_pt {
 		out.push('.');
 	}
+	out.push_str(&frac_str);
 }
 
 #[allow(clippy::fn_params_excessive_bools)]
